@@ -7,6 +7,11 @@ from explore import explore_scripts
 NAMES = ["612e", "622e", "-"]            # "a." "b." and the root name (null)
 TTLS = [0, 1, 2, 3, 120, 4500, 604800]
 JITTERS = [0, 7, 19]
+# TTLs far beyond a week whose 32-bit products record.ttl() * 500/850/900/950 wrap in the implementation without
+# producing a trigger inside HUGE_BUDGET ms: odd multiples of 2^29 s, the first TTL whose milliseconds exceed 2^32,
+# and the largest TTL.  Such records must simply be stored and returned (C06); nothing about them is due in the budget.
+HUGE_TTLS = [1 << 29, 3 << 29, 5 << 29, 7 << 29, 4294968, (1 << 32) - 1]
+HUGE_BUDGET = 1 << 29
 
 
 def rec(name, rtype, variant, ttl, flush):
@@ -24,29 +29,48 @@ def schedule(t0, ttl, j):
     return [t0 + ttl * f + j for f in (500, 850, 900, 950)] + [t0 + 1000 * ttl]
 
 
-def gen_history(rng, nops, late=False):
+def gen_history(rng, nops, late=False, advb=False, huge=False):
+    """advb: some advances stop at an instant with the firing due exactly then still pending (ADVB), so that the
+       caller's next action - most often an ADD - is processed before the simultaneously due timer;
+       huge: some records carry a TTL from HUGE_TTLS and the clock stays below HUGE_BUDGET"""
     now = 0
     lines = []
     instants = []
+    pending = False          # the previous operation was an ADVB
     for _ in range(nops):
         k = rng.random()
+        if pending:
+            k = k * 0.6      # an ADD (75 %) or another advance follows an ADVB; a lookup now and then
+            if rng.random() < 0.15:
+                k = 0.9
+        pending = False
         if k < 0.45 or not lines:
             name = rng.choice(NAMES[:2] if rng.random() < 0.9 else NAMES)
             rtype = rng.choice([1, 1, 16, 12])
             ttl = rng.choice(TTLS) if rng.random() < 0.8 else rng.randrange(1, 10)
+            if huge and rng.random() < 0.4:
+                ttl = rng.choice(HUGE_TTLS)
             j = rng.choice(JITTERS) if rng.random() < 0.8 else rng.randrange(20)
             lines.append("ADD %s %d" % (rec(name, rtype, rng.randrange(3), ttl, rng.random() < 0.3), j))
-            if ttl:
+            if ttl and ttl not in HUGE_TTLS:
                 instants += schedule(now, ttl, j)
         elif k < 0.8:
             fut = sorted(set(t for t in instants if t >= now))
+            exact = False
             if fut and rng.random() < 0.85:
                 base = rng.choice(fut[:6])
-                t = max(now, base + rng.choice([0, 0, 0, -1, 1, 5]))
+                off = rng.choice([0, 0, 0, -1, 1, 5])
+                t = max(now, base + off)
+                exact = off == 0
             else:
                 t = now + rng.choice([0, 1, 10, 499, 1000, 60000, 3600000])
+            if huge and t >= HUGE_BUDGET:
+                continue
             if late and rng.random() < 0.3:
                 lines.append("LATE %d" % t)
+            elif advb and t > now and rng.random() < (0.6 if exact else 0.15):
+                lines.append("ADVB %d" % t)
+                pending = True
             else:
                 lines.append("ADV %d" % t)
             now = t
@@ -54,14 +78,14 @@ def gen_history(rng, nops, late=False):
             lines.append("LOOKUP %s %d" % (rng.choice(NAMES + ["632e"]), rng.choice([1, 16, 12, 255, 255])))
     # settle: cross every remaining instant, then look at what is left
     fut = [t for t in instants if t >= now]
-    if fut and rng.random() < 0.7:
+    if fut and rng.random() < 0.7 and not (huge and max(fut) + 1 >= HUGE_BUDGET):
         lines.append("ADV %d" % (max(fut) + 1))
     lines.append("LOOKUP - 255")
     return lines
 
 
 def alphabet():
-    """10 letters for the exhaustive enumeration of short histories"""
+    """11 letters for the exhaustive enumeration of short histories"""
     a = rec("612e", 1, 0, 1, False)
     return ["ADD %s 0" % a,
             "ADD %s 19" % rec("612e", 1, 0, 2, True),
@@ -69,7 +93,7 @@ def alphabet():
             "ADD %s 0" % rec("612e", 1, 0, 0, False),
             "ADD %s 0" % rec("612e", 1, 2, 0, True),
             "ADD %s 0" % rec("622e", 16, 1, 1, False),
-            "ADV+ 500", "ADV+ 950", "ADV+ 1000", "LOOKUP - 255"]
+            "ADV+ 500", "ADV+ 950", "ADV+ 1000", "ADVB+ 500", "LOOKUP - 255"]
 
 
 def enum_histories(n):
@@ -88,9 +112,9 @@ def enum_histories(n):
     for h in out:
         now, lines = 0, []
         for x in h:
-            if x.startswith("ADV+"):
+            if x.startswith("ADV+") or x.startswith("ADVB+"):
                 now += int(x.split()[1])
-                lines.append("ADV %d" % now)
+                lines.append("%s %d" % (x.split()[0][:-1], now))
             else:
                 lines.append(x)
         lines.append("LOOKUP - 255")
@@ -122,6 +146,13 @@ def explore(ctx, project, attribute, replay=None, search_boost=False):
             n *= 5
         for i in range(n):
             scripts.append(Script("g%d" % i, "cache", gen_history(ctx.rng, ctx.rng.randrange(2, 30 if ctx.tier == "quick" else 60))))
+        # caller actions processed before a simultaneously due timer (ADVB), and TTLs far beyond a week (C06)
+        nb = 400 if ctx.tier == "quick" else 10000
+        for i in range(nb):
+            scripts.append(Script("b%d" % i, "cache", gen_history(ctx.rng, ctx.rng.randrange(3, 30), advb=True)))
+        nh = 150 if ctx.tier == "quick" else 3000
+        for i in range(nh):
+            scripts.append(Script("h%d" % i, "cache", gen_history(ctx.rng, ctx.rng.randrange(2, 20), advb=ctx.rng.random() < 0.3, huge=True)))
         depth = 3 if ctx.tier == "quick" else 5
         for i, h in enumerate(enum_histories(depth)):
             scripts.append(Script("e%d" % i, "cache", h))
@@ -145,7 +176,7 @@ def explore(ctx, project, attribute, replay=None, search_boost=False):
         res["exhaustive"] = False
     res["rule"] = ("histories of ADD/ADV/LOOKUP (+LATE) over 3 names x 3 types x 3 data values x TTL in "
                    "{0,1,2,3,120,4500,604800,..} x flush x jitter, advances aimed at trigger and expiry instants "
-                   "(-1/0/+1 ms); plus every history of <= %s operations over a 10-letter alphabet; a case is "
+                   "(-1/0/+1 ms), some of them stopping with the firing due at that very instant still pending (ADVB) so that the next ADD or LOOKUP is processed first; histories with TTLs far beyond a week (odd multiples of 2^29 s, 4294968 s, 2^32-1 s) under a clock below 2^29 ms; plus every history of <= %s operations over an 11-letter alphabet; a case is "
                    "non-trivial when the implementation produced at least one signal or non-empty lookup; "
                    "distinct = distinct operation sequences" % (res.get("exhaustive_depth", "-")))
     return res
